@@ -25,10 +25,13 @@ RULE = ("Spectrum objects with a stored PSD: real/complex x NFFT 1..33 (quick: 1
 SIDES = ["onesided", "twosided", "centerdc"]
 
 
+_FS = {"fs": 1.0}
+
+
 def _make(cplx, nfft, vals):
     from spectrum import Spectrum
     data = np.arange(1, nfft + 1).astype(complex if cplx else float)
-    s = Spectrum(data, NFFT=nfft, sampling=1.0, scale_by_freq=False)
+    s = Spectrum(data, NFFT=nfft, sampling=_FS["fs"], scale_by_freq=False)
     s.psd = np.array(vals, dtype=float)
     return s
 
@@ -89,7 +92,11 @@ def spec_freqs(side, n, fs=1.0):
 
 def run_hist(p):
     """returns the vector exposed by each op (stored psd after an assignment, returned vector of a get)"""
-    s = _make(p["cplx"], p["nfft"], p["vals"])
+    _FS["fs"] = p.get("fs", 1.0)
+    try:
+        s = _make(p["cplx"], p["nfft"], p["vals"])
+    finally:
+        _FS["fs"] = 1.0
     outs = []
     for op, side in p["ops"]:
         if op == "set":
@@ -127,7 +134,7 @@ def oracle_hist(p):
     for (op, side), got in zip(p["ops"], outs):
         sd = _default(cplx) if side == "default" else side
         exp = spec_rep(sd, S)
-        fr = spec_freqs(sd, nfft)
+        fr = spec_freqs(sd, nfft, p.get("fs", 1.0))
         tag = "%s NFFT=%d history %s at %s:%s" % ("complex" if cplx else "real", nfft, p["ops"], op, side)
         if len(got) != len(fr):
             out.append("length %d != len(frequencies('%s')) = %d (%s)" % (len(got), sd, len(fr), tag))
@@ -144,7 +151,7 @@ def oracle_hist(p):
         f = np.asarray(s.frequencies())
         if len(f) != len(s.psd):
             out.append("len(frequencies()) = %d but len(psd) = %d after %s" % (len(f), len(s.psd), p["ops"]))
-        elif rel(f, spec_freqs(s.sides, nfft)) > 1e-12:
+        elif rel(f, spec_freqs(s.sides, nfft, p.get("fs", 1.0))) > 1e-12:
             out.append("frequencies('%s') is not the specified axis for NFFT=%d: %s" % (s.sides, nfft, np.round(f, 4).tolist()[:8]))
         # returning to the original sides restores the original values exactly
         s.sides = "default"
@@ -199,7 +206,7 @@ def oracle_helper(p):
 
 
 def _key(p):
-    return "%s|%s|%s|%s|%d" % (p.get("cplx"), p.get("nfft"), p.get("ops"), p.get("fn"),
+    return "%s|%s|%s|%s|%s|%d" % (p.get("cplx"), p.get("nfft"), p.get("fs"), p.get("ops"), p.get("fn"),
                               hash(np.asarray(p.get("vals", p.get("x"))).tobytes()) & 0xFFFFFF)
 
 
@@ -255,6 +262,14 @@ def gen(rng, nrng, tier):
             pool = ops_all if i % 10 == 0 else ops
             h = [pool[int(nrng.integers(0, len(pool)))] for _ in range(ln)]
             yield ("hist", {"cplx": cplx, "nfft": nfft, "vals": _vals(nrng, L, i % 3), "ops": h})
+    # larger NFFT at several sampling rates: the conversions depend on NFFT's parity only, never on floating-point axis values
+    rates = [1.0, 8000.0, 250.0, 44100.0, 100.0, 0.1]
+    big = list(range(34, 131)) + [196, 206, 214, 256, 322, 500] if tier == "thorough" else [38, 58, 60, 76, 98, 102, 122, 196, 206, 97, 99, 128]
+    for nfft in big:
+        for fs in (rates if tier == "thorough" else [1.0, 8000.0, rates[nfft % len(rates)]]):
+            L = _L(False, nfft)
+            yield ("hist", {"cplx": False, "nfft": nfft, "fs": fs, "vals": _vals(nrng, L, 0), "ops": [("get", "twosided"), ("set", "centerdc"), ("get", "onesided")]})
+            yield ("hist", {"cplx": True, "nfft": nfft, "fs": fs, "vals": _vals(nrng, nfft, 0), "ops": [("get", "centerdc"), ("set", "centerdc"), ("get", "twosided")]})
     for n in range(1, (24 if tier == "quick" else 64) + 1):
         for fn in ("t2o", "t2c", "c2t", "o2t"):
             if fn == "o2t" and n < 2:
